@@ -49,7 +49,8 @@ class EqOnly:
 
 
 def make_pool():
-    return [0, 1, 2, 10, -3, "a", "b", "ab", "Z", "x.y", "", 0.5, 2.5, b"a", b"b",
+    # (strings with digits of every kind: ASCII runs, superscripts and circled numbers - str.isdigit() but not int() -, Arabic-Indic digits)
+    return [0, 1, 2, 10, -3, "a", "b", "ab", "Z", "x.y", "", "chunk2", "chunk10", "\u2460", "run1\u00b2", "\u0663", "\u00bd", 0.5, 2.5, b"a", b"b",
             1j, 2j, 1 + 1j, None, frozenset(), frozenset({1}), frozenset({2}), frozenset({1, 2}),
             (1, 2), (1, 3), ("a",), (1j,), (2j,), EqOnly("p"), EqOnly("q"), EqOnly("r", "same"), EqOnly("s", "same")]
 
